@@ -210,7 +210,12 @@ def scenario(ctx):
 		return WS.make_collection(rng, 1, universe, max_size=12)[0].astype(dtype)
 
 	M = [new_sig() for _ in range(n0)]
-	L = SignatureList(list(M), kspec, dtype=np.dtype(dtype))
+	# the list the collection is built from stays the caller's: a second collection built from the same list object, and
+	# the list itself, must not change when L is mutated
+	src_list = list(M)
+	L = SignatureList(src_list, kspec, dtype=np.dtype(dtype))
+	L_twin = SignatureList(src_list, kspec, dtype=np.dtype(dtype))
+	M_initial = list(M)
 	ctx.log('world', k=k, dtype=dtype, n0=n0, h=blob_hash(np.concatenate(M).astype('u8')) if M else '')
 	shape = []
 	n_steps = ch.int(1, 30 if not big else 8, 'n_steps')
@@ -374,6 +379,46 @@ def scenario(ctx):
 				ctx.violation('C20.mutation', f'{what}: element {j} differs from the list afterwards')
 		ctx.log('mut', op=op, n=len(M), exc=exp_exc.__name__ if exp_exc else None)
 	ctx.state(tuple(shape))
+	# the twin built from the same Python list, and that list, still hold the initial content
+	if len(src_list) != len(M_initial) or not all(_eq_arr(a, b) for a, b in zip(src_list, M_initial)):
+		ctx.violation('C20.mutation', f'mutating the collection changed the caller\'s list it was constructed from (after {",".join(shape[-8:])})')
+	if len(L_twin) != len(M_initial) or not all(_eq_arr(L_twin[i], M_initial[i]) for i in range(len(M_initial))):
+		ctx.violation('C20.mutation', f'a second collection constructed from the same list changed when the first was mutated (after {",".join(shape[-8:])})')
+	# concatenated collections over other layouts of the same signatures: a window into a larger buffer, spare capacity
+	if len(M) >= 1:
+		sizes = [len(a) for a in M]
+		pad = rng.randint(1, 5)
+		buf = np.concatenate([np.arange(pad, dtype=dtype)] + [a for a in M] + [np.arange(3, dtype=dtype)]) if M else np.arange(pad, dtype=dtype)
+		bounds = np.concatenate([[0], np.cumsum(sizes)]).astype(np.intp) + pad
+		W = SignatureArray.from_arrays(buf, bounds, kspec)
+		A0 = SignatureArray(M, kspec, dtype=np.dtype(dtype))
+		for x, y, nx, ny in ((W, A0, 'window', 'compact'), (A0, W, 'compact', 'window')):
+			if (x == y) is not True and (x == y) is not np.True_:
+				ctx.violation('C20.eq', f'a concatenated collection that is a window into a larger buffer compares unequal ({nx} == {ny}) to a compact copy of the same {len(M)} signatures')
+		# same sizes, other content: shift the window by one element
+		if sum(sizes) >= 1:
+			W2 = SignatureArray.from_arrays(buf, bounds - 1, kspec)
+			differs = any(not _eq_arr(W2[i], M[i]) for i in range(len(M)))
+			if differs and (W2 == A0) not in (False, np.False_):
+				ctx.violation('C20.eq', 'two concatenated collections with equal signature sizes but different contents (windows at different offsets) compare equal')
+		# two different collections stored in two groups of ONE HDF5 file
+		import h5py
+		from gambit.sigs.hdf5 import HDF5Signatures
+		gpath = os.path.join(ctx.scratch, 'groups.h5')
+		other = [a.copy() for a in M]
+		j = rng.randrange(len(other))
+		other[j] = new_sig() if len(M[j]) == 0 else M[j][:-1].copy()
+		with h5py.File(gpath, 'w') as f:
+			HDF5Signatures.create(f.create_group('a'), A0)
+			HDF5Signatures.create(f.create_group('b'), SignatureArray(other, kspec, dtype=np.dtype(dtype)))
+		with h5py.File(gpath, 'r') as f:
+			ga, gb = HDF5Signatures(f['a']), HDF5Signatures(f['b'])
+			same = all(_eq_arr(x, y) for x, y in zip(M, other))
+			if bool(ga == gb) != same:
+				ctx.violation('C20.eq', f'two signature sets stored in different groups of one HDF5 file compare {"equal" if ga == gb else "unequal"} although their contents are {"equal" if same else "different"}')
+			if (ga == A0) not in (True, np.True_):
+				ctx.violation('C20.eq', 'a signature set stored in a group of an HDF5 file compares unequal to the in-memory collection it was written from')
+		ctx.stats['observations'] += 6
 	# final observation round on all three
 	A, H, closer = snapshots()
 	try:
